@@ -131,6 +131,9 @@ def run(ctx):
         k = rng.randrange(2, len(names) + 1)
         files = [(n, p, rng.choice(STATES) if rng.random() < 0.5 else "clean", rng.choice(spell.get(n, [n]))) for n, p in names[:k]]
         jobs.append((files, rng.random() < 0.5, 1000 + i, rng.choice(["clean", "clean", "clean", " M"])))
+    for allow in (False, True):                            # an untracked file without a pattern whose path is a PREFIX of a pattern file's path (README next to README.md)
+        jobs.append(([("pat.txt", True, "clean"), ("pat", False, "??"), ("pat.tx", False, "??")], allow, len(jobs), "clean"))
+        jobs.append(([("pat.txt", True, "clean"), ("pat.txt.bak", False, "??"), ("p", False, "??")], allow, len(jobs), "clean"))
     for s in (" M", "M ", "MM", "??"):                    # a long status listing: twelve unrelated dirty files sort before the dirty pattern file
         for allow in (False, True):
             jobs.append(([("a%02d.txt" % k, False, " M") for k in range(1, 13)] + [("zz_pat.txt", True, s)], allow, len(jobs), "clean"))
